@@ -30,11 +30,13 @@ pub struct Ctl {
     /// `poll_stream_len`) - informational; the verdict uses the model's own flag
     pub restore_suspended: bool,
     last_seek_end: bool,
+    /// instead of `sched`: every even-numbered poll is suspended (each operation once)
+    pub alternate: bool,
 }
 
 impl Ctl {
     fn pend(&mut self) -> bool {
-        let p = self.sched.get(self.polls).copied().unwrap_or(false);
+        let p = if self.alternate { self.polls % 2 == 0 } else { self.sched.get(self.polls).copied().unwrap_or(false) };
         self.polls += 1;
         if p {
             self.pendings += 1;
@@ -182,6 +184,23 @@ pub fn run_async(s: &Sparse, cfg: &Cfg, rd: Rd, sched: &[bool]) -> (String, usiz
     .unwrap_or("panic".into());
     let c = ctl.borrow();
     (r, c.polls, c.pendings, c.restore_suspended)
+}
+
+/// `sanitize_async` over a NATIVE AsyncSkip reader whose every operation is suspended once (first poll Pending, second
+/// ready) - used as one more carrier by every MP4 check: the answer may not depend on it (native readers are
+/// restartable, so this is independent of the known finding F5, which concerns `SeekSkipAdapter` over `AsyncSeek`)
+pub fn run_async_every_op_suspended(s: &Sparse, cfg: &Cfg, strict: bool) -> ImplOut {
+    let ctl: Shared = Rc::new(RefCell::new(Ctl { alternate: true, ..Default::default() }));
+    let max = 4_000_000;
+    let out = if strict {
+        drive(mp4san::sanitize_async_with_config(PendNative { inner: StrictReader::new(s), ctl }, cfg.build()), max)
+    } else {
+        drive(mp4san::sanitize_async_with_config(PendNative { inner: SeekSkipAdapter(SeekReader::new(s)), ctl }, cfg.build()), max)
+    };
+    match out {
+        Some(r) => canon(r),
+        None => ImplOut::Panic,
+    }
 }
 
 fn sched_text(s: &[bool]) -> String {
